@@ -332,6 +332,21 @@ impl<R: DynamicChannelRegion> RegionHandler for DynamicChannelPlan<R> {
             None
         }
     }
+
+    #[cfg(feature = "verif-hooks")]
+    fn verif_plan(&self) -> crate::verif::VerifPlan {
+        let mut channels = [None; 16];
+        for (out, ch) in channels.iter_mut().zip(self.channels.iter()) {
+            *out = ch.map(|c| crate::verif::VerifChannel {
+                frequency: c.frequency,
+                dl_frequency: c.dl_frequency,
+                dr_range: c._datarates.raw_value(),
+            });
+        }
+        let mut channel_mask = [0u8; 9];
+        channel_mask.copy_from_slice(self.channel_mask.as_ref());
+        crate::verif::VerifPlan { fixed: false, channel_mask, channels, join_bias: Default::default() }
+    }
 }
 
 #[cfg(all(test, feature = "region-eu868"))]
